@@ -153,6 +153,7 @@ pub struct Model {
 }
 
 pub struct Sys {
+    twins: Vec<Ix>, // rescoring quantised modes only: an unquantised index per metric, same configuration, seed and history (same graph until the first remove)
     builds: [Vec<Ix>; 2], // per build: one index per metric; build 1 is created at the first remove (before it both builds are replicas: no hash-order dependence)
     evs: Vec<Ev>,
     refmap: BTreeMap<u8, u8>,
@@ -423,6 +424,19 @@ impl Model {
                         let r = ix.search(q, k);
                         Self::bump(&mut local, "searches", 1);
                         self.judge(sys, *metric, q, k, None, &r, "search", &mut viols, &mut local);
+                        // quantisation with rescoring ranks the candidates of the same graph: it may reorder them, it cannot lose
+                        // one (the twin is the same graph until a remove makes the two instances hash-order dependent)
+                        if b == 0 && !sys.had_remove {
+                            if let Some(tw) = sys.twins.get(mi) {
+                                let rt = tw.search(q, k);
+                                Self::bump(&mut local, "twin_searches", 1);
+                                if r.len() < rt.len() {
+                                    let all: Vec<&[f32]> = sys.refmap.iter().map(|(id, vi)| self.vec_of(*id, *vi)).collect();
+                                    let param = if k > size { "k>size" } else { "other" };
+                                    viols.add(self.vkey("fewer-than-unquantised", *metric, feature_set(&all), sys, param, ""), || format!("search(q={q:?}, k={k}) on {} returned {} results {:?}; the unquantised index over the same graph returns {} {:?}", mname(*metric), r.len(), r.iter().map(|(i, _)| i.as_u64()).collect::<Vec<_>>(), rt.len(), rt.iter().map(|(i, _)| i.as_u64()).collect::<Vec<_>>()));
+                                }
+                            }
+                        }
                         for (i, d) in &r {
                             dig.push((i.as_u64(), d.to_bits()));
                         }
@@ -518,6 +532,9 @@ impl Model {
                         ix.insert(NodeId::new(id as u64), &v);
                     }
                 }
+                for ix in &sys.twins {
+                    ix.insert(NodeId::new(id as u64), &v);
+                }
                 if sys.refmap.insert(id, vi).is_some() {
                     sys.had_reinsert = true;
                 }
@@ -540,6 +557,9 @@ impl Model {
                     sys.builds[1] = b1;
                 }
                 let want = sys.refmap.remove(&id).is_some();
+                for ix in &sys.twins {
+                    ix.remove(NodeId::new(id as u64));
+                }
                 for b in 0..2 {
                     for (mi, ix) in sys.builds[b].iter().enumerate() {
                         let r = ix.remove(NodeId::new(id as u64));
@@ -561,7 +581,8 @@ impl SeqModel for Model {
     type Sys = Sys;
     fn init(&self) -> Sys {
         let mk = || METRICS.iter().map(|m| self.mk(*m)).collect::<Vec<_>>();
-        let mut sys = Sys { builds: [mk(), vec![]], evs: vec![], refmap: BTreeMap::new(), used: 0, hist: vec![], had_remove: false, had_reinsert: false };
+        let twins = if matches!(self.mode, QMode::QScalar | QMode::QBinary | QMode::QProduct) { METRICS.iter().map(|m| Ix::Q(QuantizedHnswIndex::with_seed(HnswConfig::new(self.dim, *m).with_m(self.m), QuantizationType::None, self.seed))).collect() } else { vec![] };
+        let mut sys = Sys { twins, builds: [mk(), vec![]], evs: vec![], refmap: BTreeMap::new(), used: 0, hist: vec![], had_remove: false, had_reinsert: false };
         let mut sink = vec![];
         for i in 0..self.prefill {
             self.apply_raw(&mut sys, &Ev::Insert(100 + i, i % self.alpha.len() as u8), false, &mut sink);
